@@ -10,7 +10,7 @@
    a killed process never runs it.  The property as a whole stays partial (manifest): the
    events are what reqwest/hyper/tokio deliver, persist is one step by the kernel's rename
    atomicity, a concurrently writing second process is outside the model. *)
-From RM Require Import C09.Grammar C10.Model C16.Model C16.Proofs C16.Rehit C16.Driver.
+From RM Require Import C09.Grammar C10.Model C16.Model C16.Proofs C16.Rehit C16.Driver C16.Shared C16.SharedProofs Gen.C16Ops.
 Open Scope Z_scope.
 
 Section Statements.
@@ -219,3 +219,114 @@ Proof.
     unfold ex_url. repeat (constructor; [split; discriminate|]). constructor.
   - vm_compute. split; reflexivity.
 Qed.
+
+
+(* ------------------------------------------------------------------------------------------------
+   Shared cache (round 4): ANY number of clients (HttpSymbolSupplier instances or processes; client =
+   a key in Z) share one cache path and one tmp directory; the scheduler interleaves their network
+   events and their file-system operations one operation at a time, in every possible way (the
+   schedule is an arbitrary list of (client, action)).  The operation programs are the ones
+   translate/c16_fsops.py extracts from create_cache_file / commit_cache_file of http.rs
+   (RM.Gen.C16Ops.create_ops / commit_ops): the two side conditions are discharged by computation
+   on those lists, so an operation moved or reordered in the source makes these proofs fail. *)
+Section SharedStatements.
+  Variable T : Type.
+  Variable parse : bytes -> option (T * option bytes).
+  Let mrun := mrun T parse create_ops commit_ops.
+  Let mstep := mstep T parse create_ops commit_ops.
+  Let quiet := quiet T parse create_ops commit_ops.
+
+  (* Invariant, for every schedule: whatever regular file is at the cache path is complete — the file
+     that was there before, or body ++ (newline iff missing) ++ INFO URL note for a body the parser
+     accepted as a whole; a client that is finished (or never started) owns no temp file; the temp file
+     of a client in flight holds exactly what that client received / prepared. *)
+  Theorem c16_shared_cache_inv : forall (c0 : option node) f srv sched,
+    m_cache f = c0 -> (forall i, m_tmp f i = None) ->
+    let s := mrun (minit T f srv) sched in
+    (forall c, m_cache (ms_fs s) = Some (File c) ->
+       c0 = Some (File c) \/ exists body u t x, parse body = Some (t, x) /\ c = cached_form body u) /\
+    (forall i, cfinished T (c_ph (ms_cl s i)) = true -> m_tmp (ms_fs s) i = None) /\
+    (forall i b, m_tmp (ms_fs s) i = Some b ->
+       match c_ph (ms_cl s i) with
+       | CCreate _ => b = []
+       | CBody got => b = got
+       | CCommit _ body _ => exists x t, parse body = Some (t, x) /\
+                             (b = body \/ b = body ++ sep body \/ b = cached_form body (url_of T (ms_cl s i)))
+       | _ => False
+       end).
+  Proof. exact (fun c0 => shared_cache_inv T parse create_ops commit_ops eq_refl eq_refl c0). Qed.
+
+  (* The cache path changes only in a step of a client that is inside commit_cache_file, i.e. after
+     the clean end of its body and parser Ok on all of it. *)
+  Theorem c16_shared_cache_changes_only_in_commit : forall (c0 : option node) f srv sched i a,
+    m_cache f = c0 -> (forall i, m_tmp f i = None) ->
+    let s := mrun (minit T f srv) sched in
+    m_cache (ms_fs (mstep s (i, a))) <> m_cache (ms_fs s) ->
+    exists ops body t x, c_ph (ms_cl s i) = CCommit ops body t /\ parse body = Some (t, x).
+  Proof. exact (fun c0 => shared_cache_changes_only_in_commit T parse create_ops commit_ops eq_refl eq_refl c0). Qed.
+
+  (* Hence: once an entry is at the path, every continuation of the history in which no client
+     commits — other clients' downloads start, receive their head (create_cache_file runs), stream,
+     fail in any way, or are dropped at any point — leaves that entry exactly as it is. *)
+  Theorem c16_shared_failed_downloads_keep_entry : forall (c0 : option node) f srv pre post,
+    m_cache f = c0 -> (forall i, m_tmp f i = None) ->
+    let s1 := mrun (minit T f srv) pre in
+    quiet s1 post ->
+    m_cache (ms_fs (mrun s1 post)) = m_cache (ms_fs s1).
+  Proof. exact (fun c0 => shared_entry_survives T parse create_ops commit_ops eq_refl eq_refl c0). Qed.
+End SharedStatements.
+
+Print Assumptions c16_shared_cache_inv.
+Print Assumptions c16_shared_cache_changes_only_in_commit.
+Print Assumptions c16_shared_failed_downloads_keep_entry.
+
+(* The same machine with the operation order of seeded change C16-3 (the removal of an existing entry
+   moved from commit_cache_file into create_cache_file): a history in which client 1 commits a complete
+   entry and client 0, which never gets as far as commit_cache_file, then deletes it. *)
+Definition u_parse (b : bytes) : option (unit * option bytes) := match b with [] => None | _ => Some (tt, None) end.
+Definition u_srv (i : Z) : list server := [mkserver i [104; 48 + i] env_ok].
+Definition u_f0 : mfs := mkmfs None false (fun _ => None).
+Definition u_pre : list (Z * action) :=
+  [(0, AStart); (1, AStart); (1, ANet (EHead 200)); (1, ATick); (1, ATick); (1, ATick); (1, ATick);
+   (1, ANet (EChunk [65; 10])); (1, ANet EEof); (1, ATick); (1, ATick); (1, ATick); (1, ATick); (1, ATick)].
+Definition u_post : list (Z * action) :=
+  [(0, ANet (EHead 200)); (0, ATick); (0, ATick); (0, ATick); (0, ATick); (0, ANet (EChunk [66])); (0, ANet EBodyErr)].
+
+Theorem c16_shared_seeded_order_refuted :
+  let cr := [OMkdirAll; ORemoveIfExists; ONewTemp] in
+  let cm := [OWriteSep; OWriteNote; OPersist] in
+  let s1 := mrun unit u_parse cr cm (minit unit u_f0 u_srv) u_pre in
+  m_cache (ms_fs s1) = Some (File (cached_form [65; 10] [104; 49])) /\
+  quiet unit u_parse cr cm s1 u_post /\
+  m_cache (ms_fs (mrun unit u_parse cr cm s1 u_post)) = None.
+Proof. vm_compute. repeat split; reflexivity. Qed.
+Print Assumptions c16_shared_seeded_order_refuted.
+
+(* non-vacuity: the same history on the programs of the source keeps the entry, leaves no temp file,
+   and the failing client ends NotFound *)
+Example c16_nonvacuous_shared :
+  let s1 := mrun unit u_parse create_ops commit_ops (minit unit u_f0 u_srv) u_pre in
+  let s2 := mrun unit u_parse create_ops commit_ops s1 u_post in
+  m_cache (ms_fs s1) = Some (File (cached_form [65; 10] [104; 49])) /\
+  quiet unit u_parse create_ops commit_ops s1 u_post /\
+  m_cache (ms_fs s2) = Some (File (cached_form [65; 10] [104; 49])) /\
+  m_tmp (ms_fs s2) 0 = None /\ m_tmp (ms_fs s2) 1 = None /\
+  c_ph (ms_cl s2 0) = CDone RNotFound.
+Proof. vm_compute. repeat split; reflexivity. Qed.
+
+(* non-vacuity: both succeed; the later commit replaces the earlier entry by its own complete file *)
+Example c16_nonvacuous_shared_both :
+  let sched := u_pre ++ [(0, ANet (EHead 200)); (0, ATick); (0, ATick); (0, ATick); (0, ANet (EChunk [66; 10])); (0, ANet EEof);
+                         (0, ATick); (0, ATick); (0, ATick); (0, ATick); (0, ATick)] in
+  let s := mrun unit u_parse create_ops commit_ops (minit unit u_f0 u_srv) sched in
+  m_cache (ms_fs s) = Some (File (cached_form [66; 10] [104; 48])) /\ m_tmp (ms_fs s) 0 = None.
+Proof. vm_compute. split; reflexivity. Qed.
+
+(* the order in which fetch_symbol_file takes its steps (translated from the source) is the one the
+   step function of the machines was written for: send + status check, create_cache_file, parse with
+   the tee callback and `?`, url, commit only `if let Some(temp)`, Ok *)
+Example c16_fetch_steps_as_modelled :
+  fetch_steps = [FSend; FCreate; FParseTee; FSetUrl; FCommitIfTemp; FReturnOk] /\
+  create_ops = [OMkdirAll; ONewTemp] /\ commit_ops = std_commit.
+Proof. repeat split; reflexivity. Qed.
+Print Assumptions c16_fetch_steps_as_modelled.
